@@ -73,6 +73,7 @@ def c04(ctx):
     from .rules import validity, dml
     validity.info_valid(ctx)
     dml.gate1(ctx)
+    dml.limit_w(ctx)
     return ctx.finish(explanation="interprocedural error-after-mutation path rule over the CFGs of the 11 entry functions, with every frozen exception "
                       "backed by a mechanical pre-validation rule; frame condition on the stream each DML statement rewrites. Byte equality after a "
                       "rejected call is not decided")
@@ -232,9 +233,11 @@ def c01(ctx):
     flush.flush1(ctx)
     codec.cell_codec(ctx)
     codec.pool_codec(ctx)
+    codec.pool_load(ctx)
     from .rules import schema, streams
     schema.table_bits(ctx)
     schema.bits_disjoint(ctx)
+    schema.table_clsid(ctx)
     streams.b64_tables(ctx)
     return ctx.finish(explanation="structural necessary conditions of persistence: dirty-flag discipline, finisher arming, the three close paths, the "
                       "finisher's completeness and ordering, flush-before-drop, reader/writer symmetry of the cell and pool codecs, and the "
@@ -266,6 +269,9 @@ def c06(ctx):
     schema.info_schema(ctx)
     schema.sep1(ctx)
     schema.table_cat(ctx)
+    schema.builder_pass(ctx)
+    from .rules import flush
+    flush.dirty1(ctx)
     return ctx.finish(explanation="pack/unpack constants of the column type word, disjointness, attribute/position symmetry of the _Validation row between writer and reader, "
                       "separator guard, category spelling tables. Equality of the reopened schema for all column lists is not decided")
 
@@ -275,13 +281,16 @@ def c02(ctx):
     from .rules import schema, codec
     codec.cell_codec(ctx)
     codec.pool_codec(ctx)
+    codec.pool_load(ctx)
     schema.codec4(ctx)
     schema.table_bits(ctx)
     schema.gate_opt(ctx)
     schema.ins1(ctx)
-    from .rules import propset, streams
+    schema.table_clsid(ctx)
+    from .rules import propset, streams, flush
     propset.run(ctx)
     streams.b64_tables(ctx)
+    flush.dirty1(ctx)
     return ctx.finish(explanation="reader-side structure: cell widths, offset-binary constants, column-major nesting, reference-width threading, pool header bit and long-string escape, "
                       "type-word masks and the 1-byte integer quirk, optional catalog streams, repeated-key rejection. That decoded values equal a foreign generator's is not decided")
 
@@ -312,6 +321,7 @@ def c05(ctx):
     dml.gate1(ctx)
     dml.gate2(ctx)
     validity.info_valid(ctx)
+    validity.cat_arms(ctx)
     dml.ord1(ctx)
     dml.key_set(ctx)
     dml.del_only_retain(ctx)
@@ -334,6 +344,7 @@ def c08(ctx):
     from .rules import eam
     eam.run(ctx)
     codec.pool_codec(ctx)
+    codec.pool_load(ctx)
     codec.cell_codec(ctx)
     codec.codec_e(ctx)
     return ctx.finish(explanation="reference pairing (release on delete, release-then-acquire on update, who-may-call for the pool counters, rows deleted before a table "
@@ -370,6 +381,7 @@ def c03(ctx):
     dml.del_only_retain(ctx)
     dml.ord1(ctx)
     dml.key_set(ctx)
+    dml.info_key(ctx)
     from .rules import flush
     flush.dirty1(ctx)
     flush.dirty2(ctx)
